@@ -248,7 +248,7 @@ func GenHist(t *rapid.T, p Profile) *HistCase {
 				})
 			}
 		}
-		if op.Note == "refresh" && Pct(t, p.PlantPct, "plant") {
+		if (op.Note == "refresh" || op.Note == "zero") && Pct(t, p.PlantPct, "plant") {
 			pl := op
 			pl.Kind, pl.Note, pl.Faults = "plant", "plant", nil
 			pl.TsAgo = int64(rapid.SampledFrom([]int{86400, 3600, 5, 400000000}).Draw(t, "plantago"))
